@@ -98,7 +98,7 @@ def _maybe_fallback(out, repo, c, variant, concrete, tree, timeout_ms):
         concrete = BOUNDED_QUICK[0]
         out["concrete"] = concrete
         out["fallback_of_unbounded"] = True
-    n = 40 if timeout_ms <= 20000 else 300
+    n = 150 if timeout_ms <= 20000 else 600
     try:
         r = rt_fallback.run_fallback(repo, c, variant, concrete, tree, n, seed=int(os.environ.get("VERIF_SEED", "0") or 0))
     except Exception:
